@@ -31,6 +31,7 @@ def setup_env():
     os.environ.setdefault('LOG_LEVEL', 'CRITICAL')
     os.environ['LOG_PATH'] = 'false'
     os.environ.setdefault('SCARF_NO_ANALYTICS', 'true')
+    os.environ['OUTPUTS_JPG'] = 'null'     # E1 harness default: images go out as process() returned them (raw stays raw, jpg stays jpg)
 
     for k in ('OPENLINEAGE_URL', 'OPENLINEAGE_API_KEY', 'TELEMETRY_EXPORTER_ENABLED', 'OF_SAFE_METRICS',
               'OF_SAFE_METRICS_FILE', 'PIPELINE_ID', 'DEVICE_NAME', 'OPENLINEAGE_EXPORT_RAW_DATA'):
